@@ -12,6 +12,12 @@ import corpus, render
 
 LEX = re.compile(r'"[^"\r\n]*"?|\'[^\r\n]*|\r\n|\r|\n|[ \t]+|&[HhOo][0-9A-Fa-f]*|[0-9]+\.?[0-9]*#?|[A-Za-z][A-Za-z0-9.]*[%&!#$]?|<=|>=|<>|.', re.S)
 SIMPLE = re.compile(r'^\s*(PRINT\b(?![^\r\n]*\bUSING\b)|[A-Za-z][A-Za-z0-9.]*[%&!#$]?(\([^()\r\n]*\))?\s*=(?!=))', re.I)
+JOINABLE = {"PRINT", "LPRINT", "CLS", "BEEP", "GOTO", "GOSUB", "RETURN", "DIM", "REDIM", "CONST", "FOR", "NEXT", "WHILE", "WEND", "DO", "LOOP",
+            "INPUT", "READ", "LOCATE", "COLOR", "CLOSE", "OPEN", "KILL", "NAME", "POKE", "LSET", "GET", "PUT", "FIELD", "WIDTH", "VIEW",
+            "ENVIRON", "EXIT", "RESUME", "LINE"}
+KEYWORDS = JOINABLE | {"IF", "THEN", "ELSE", "ELSEIF", "END", "SELECT", "CASE", "SUB", "FUNCTION", "DECLARE", "TYPE", "DATA", "REM", "DEF", "ON",
+                       "AS", "TO", "STEP", "UNTIL", "SHARED", "STATIC", "USING", "AND", "OR", "NOT", "MOD", "IS", "ERROR", "CALL", "LET",
+                       "DEFINT", "DEFLNG", "DEFSNG", "DEFDBL", "DEFSTR", "SEG", "ACCESS", "APPEND", "OUTPUT", "RANDOM", "LEN", "SYSTEM", "STOP"}
 NOTSIMPLE = re.compile(r'\b(IF|THEN|ELSE|REM|DATA|FOR|NEXT|WHILE|WEND|DO|LOOP|SELECT|CASE|END|SUB|FUNCTION|DECLARE|TYPE|DIM|DEF\w*|ON|RESUME|GOTO|GOSUB|RETURN|CONST)\b', re.I)
 
 
@@ -40,13 +46,38 @@ def tokenize(text):
         if k == "eol":
             line += 1
 
-    def simple(ln):
-        return bool(SIMPLE.match(ln)) and not NOTSIMPLE.search(re.sub(r'"[^"]*"', '""', ln)) and "'" not in ln and ":" not in ln
+    intype = [False] * (len(lines) + 1)
+    flag = False
+    for i, ln in enumerate(lines):
+        first = (re.findall(r'[A-Za-z]+', ln) or [""])[0].upper()
+        if first == "TYPE":
+            flag = True
+        intype[i] = flag
+        if first == "END" and re.match(r'\s*END\s+TYPE', ln, re.I):
+            flag = False
+
+    def simple(i):
+        """may this line be joined with a neighbour by a colon without changing the meaning?"""
+        ln = lines[i]
+        bare = re.sub(r'"[^"]*"', '""', ln)
+        if "'" in bare or ":" in bare or intype[i] or not bare.strip():
+            return False
+        if re.search(r'\b(IF|THEN|ELSE|ELSEIF|SELECT|CASE|SUB|FUNCTION|DECLARE|TYPE|DATA|REM|DEF\w*|ON)\b', bare, re.I):
+            return False          # IF consumes the rest of its line; the others are block / declaration lines
+        first = (re.findall(r'[A-Za-z][A-Za-z0-9.]*[%&!#$]?', bare) or [""])[0].upper()
+        if first == "END":
+            return bare.strip().upper() == "END"
+        if first in JOINABLE:
+            return True
+        if SIMPLE.match(ln):
+            return True
+        # a call of a user SUB: a name that is no keyword, followed by arguments or nothing
+        return bool(re.match(r'^\s*[A-Za-z][A-Za-z0-9.]*(\s+[^=].*)?$', bare)) and first not in KEYWORDS
     # an eol may become a colon when the line before and the line after are simple statements
     for tk in toks:
         if tk["k"] == "eol":
             i = tk["line"]
-            if i + 1 < len(lines) and simple(lines[i]) and simple(lines[i + 1]):
+            if i + 1 < len(lines) and simple(i) and simple(i + 1):
                 tk["join"] = True
     # a blank inside a line that only separates tokens; leading blanks of a line are stretchable too
     return toks
@@ -99,7 +130,9 @@ def seeds(tier, rng):
                 pass
     cp = [c["text"] for c in corpus.programs() if 15 <= len(c["text"]) <= 500]
     rng.shuffle(cp)
-    texts += cp[: (150 if tier == "thorough" else 25)]
+    texts += cp[: (150 if tier == "thorough" else 14)]
+    import tour
+    texts += tour.TOUR          # every statement form of the language at least once
     # rejected seeds: verdict class must be stable too
     texts += ['X% = "a"\r\nPRINT X%\r\n', 'PRINT UCASE$(5)\r\n', 'GOTO Nowhere\r\nPRINT 1\r\n', 'FOR I = 1 TO 3\r\nPRINT I\r\n',
               'DIM A AS INTEGER\r\nA$ = "x"\r\n', 'IF X THEN\r\nPRINT 1\r\n']
@@ -123,6 +156,12 @@ def norm_tree(tree):
     t = COMMENT_RE.sub("", tree)
     t = t.replace(", ]", "]")
     t = re.sub(r'(?:inline_)?comments: \[(?:Positioned \{ element: "(?:[^"\\]|\\.)*", pos: P \}(?:, )?)*\]', "comments: []", t)
+    # an empty ELSE block and no ELSE block are the same statement (a trailing comment after a one-line IF gives the former)
+    t = t.replace("else_block: Some([])", "else_block: None")
+    # FIELD keeps the NAME of each variable as a string literal, in the letter case of the source
+    def field_names(m):
+        return re.sub(r'StringLiteral\("([^"]*)"\)', lambda n: 'StringLiteral("%s")' % n.group(1).upper(), m.group(0))
+    t = re.sub(r'BuiltInSubCall\((?:Field|LSet), \[.*?\]\)\)', field_names, t)
     return re.sub(r'CaseInsensitiveString\("([^"]*)"\)', lambda m: 'CIS("%s")' % m.group(1).upper(), t)
 
 
@@ -178,9 +217,16 @@ def run(tier, replay):
         rest = [v for v in variants if v[2] == "subset"]
         rng.shuffle(rest)
         variants = keep + rest[:13000]
-    base_resp = dict(zip([s["id"] for s in sd], pool.map([{"op": "run", "text": s["text"], "tree": True, "budget": 50000} for s in sd], timeout=40)))
+    import tour, shutil
+    fsroot = os.path.join(d, "fs")
+    shutil.rmtree(fsroot, ignore_errors=True)
+
+    def req(t, n):
+        return {"op": "run", "text": t, "tree": True, "budget": 50000, "stdin": tour.TOUR_STDIN, "dir": os.path.join(fsroot, n)}
+    base_resp = dict(zip([s["id"] for s in sd], pool.map([req(s["text"], "b%d" % i) for i, s in enumerate(sd)], timeout=40)))
     vtexts = [materialise(byid[v[0]]["toks"], v[3], v[1], rng) for v in variants]
-    vresps = pool.map([{"op": "run", "text": t, "tree": True, "budget": 50000} for t in vtexts], timeout=40)
+    vresps = pool.map([req(t, "v%d" % i) for i, t in enumerate(vtexts)], timeout=40)
+    shutil.rmtree(fsroot, ignore_errors=True)
     nontrivial = set()
     stats = {}
     for v, t, resp in zip(variants, vtexts, vresps):
